@@ -44,6 +44,7 @@ package redisemu
 // the client is in the wait queues of its keys (set when it registers, cleared when the wake signal fires: the pusher takes a woken client out of every queue)
 //@ ghost gInQueues bool
 //@ ghost gLookedSinceQueued bool
+//@ ghost gClosingSeenAfterCapture bool
 // the remaining time to the command's deadline as last computed, and whether it was computed since the last timer was armed
 //@ ghost gUntilFresh bool
 //@ ghost gUntilValue int64
@@ -62,6 +63,10 @@ package redisemu
 //@ ghostafter "ws := blockFn()" : gLookedSinceQueued = false
 //@ ghostafter "ws = blockFn()" : gLookedSinceQueued = false
 //@ loop 1 invariant [C11] looked.after.queueing: gLookedSinceQueued
+// C12: between capturing the connection and waiting, the closing flag is looked at: a close requested earlier posted nothing (there was nothing to unblock), one requested later finds the client captured
+//@ ghostafter "unblockCh := ctx.cs.capture()" : gClosingSeenAfterCapture = false
+//@ assertbefore "return false" [C12] closing.checked.before.wait: gClosingSeenAfterCapture
+//@ assertbefore "return true" [C12] closing.checked.before.abort: gClosingSeenAfterCapture
 //@ loop 1 invariant !held && ws != nil && !ctx.multi
 //@ assertbefore "ctx.dsc.ds.passWakeUp(ws)" [C11] handon.when.error: istype(output.data, respErrorString)
 //@ ghostafter "ws := blockFn()" : gWaitRegistered = true
@@ -197,3 +202,8 @@ package redisemu
 //@ modifies signalListTuple objectWaitList.queueHead objectWaitList.queueTail wakeSignal.objectsHead wakeSignal.objectsTail wakeSignal.raisedBy map ghost.gWakes ghost.gTableUnblocks ghost.gTableUnblockKey ghost.gTableUnblockN ghost.held
 //@ ensures [C11] handed.on: gTableUnblocks == old(gTableUnblocks) + 1 && gTableUnblockKey == old(ws.raisedBy) && gTableUnblockN == 1
 //@ ensures [C08,C16] released: !held
+
+//@ func RedisClient.IsCloseRequested
+//@ trusted reads the connection's closing flag under its mutex
+//@ modifies ghost.gClosingSeenAfterCapture
+//@ effect gClosingSeenAfterCapture = true
